@@ -219,6 +219,10 @@ pub struct UdpHistoryCase {
     /// ids count from 1 on the server's own counter (0 = the client only sends)
     #[serde(default)]
     pub reply_every: u8,
+    /// after every so many replies the server "restarts": the following replies come from a new server session id and
+    /// count their packet ids from 1 again (0 = one server session throughout)
+    #[serde(default)]
+    pub server_restart_every: u8,
 }
 
 pub struct UdpHistory;
@@ -230,8 +234,8 @@ impl SubCheck for UdpHistory {
     }
     fn strategy(&self, _tier: Tier) -> BoxedStrategy<UdpHistoryCase> {
         let protos: Vec<Proto> = Proto::all().into_iter().filter(|p| matches!(p, Proto::SsLegacy(_) | Proto::Ss22(_))).collect();
-        (proptest::sample::select(protos).prop_flat_map(gen::cred_for), proptest::collection::vec(1u8..30, 1..10), any::<u64>(), prop_oneof![3 => Just(0u8), 1 => 1u8..6], prop_oneof![1 => Just(0u8), 2 => 1u8..5])
-            .prop_map(|(CredGen { cred, .. }, sessions, seed, near_max, reply_every)| UdpHistoryCase { cred, sessions, seed, near_max, reply_every })
+        (proptest::sample::select(protos).prop_flat_map(gen::cred_for), proptest::collection::vec(1u8..30, 1..10), any::<u64>(), prop_oneof![3 => Just(0u8), 1 => 1u8..6], prop_oneof![1 => Just(0u8), 2 => 1u8..5], prop_oneof![2 => Just(0u8), 1 => 1u8..4])
+            .prop_map(|(CredGen { cred, .. }, sessions, seed, near_max, reply_every, server_restart_every)| UdpHistoryCase { cred, sessions, seed, near_max, reply_every, server_restart_every })
             .boxed()
     }
     fn exec(&self, c: &UdpHistoryCase) -> Outcome {
@@ -289,9 +293,16 @@ impl SubCheck for UdpHistory {
                                 // asymmetric traffic: now and then a server reply arrives between two sends
                                 if c.reply_every > 0 && (k + 1) % c.reply_every == 0 && !near {
                                     replies_fed += 1;
+                                    let (epoch, pid_in_epoch) = match c.server_restart_every as u64 {
+                                        0 => (0, replies_fed),
+                                        e => ((replies_fed - 1) / e, (replies_fed - 1) % e + 1),
+                                    };
+                                    if epoch > 0 {
+                                        out.label("replies-from-a-restarted-server-session");
+                                    }
                                     let rp = ss2022::UdpServerPacket {
-                                        ssid: 0x5e55_1000_0000_0000 | si as u64,
-                                        pid: replies_fed,
+                                        ssid: 0x5e55_1000_0000_0000 | si as u64 | (epoch << 20),
+                                        pid: pid_in_epoch,
                                         typ: 1,
                                         ts: T0,
                                         client_sid: d.pkt.sid,
